@@ -23,7 +23,7 @@ def stateless (f : Bool → Json → Except String String) : Domain :=
 
 def domains : List (String × Domain) := [
   ("disk", stateless Driver.Disk.step),
-  ("pause", { σ := Zeno.Model.Pause.S, init := {}, step := Driver.Pause.step }),
+  ("pause", { σ := Driver.Pause.DS, init := {}, step := Driver.Pause.stepD }),
   ("stage", { σ := Driver.Stage.St, init := {}, step := Driver.Stage.step }),
   ("queue", { σ := List Zeno.Model.Queue.Row, init := [], step := Driver.Queue.step }),
   ("url", stateless Driver.Url.step),
